@@ -4,6 +4,7 @@ import TFV.Properties.Src.BoundsControl
 import TFV.Properties.Src.Binomial
 import TFV.Properties.Src.Donors
 import TFV.Properties.Src.DETrial
+import TFV.Properties.Src.Pbest
 #print axioms TFV.DE.C07_clamp
 #print axioms TFV.DE.C07_clampMean
 #print axioms TFV.DE.C07_repair_only_outside
@@ -34,3 +35,5 @@ import TFV.Properties.Src.DETrial
 #print axioms TFV.SrcTie.C07_src_de_trial
 #print axioms TFV.SrcTie.C07_src_de_trial_in_box
 #print axioms TFV.SrcTie.C07_src_shade_trial
+#print axioms TFV.SrcTie.C07_src_find_pbest_id
+#print axioms TFV.SrcTie.C07_src_find_pbest_is_pbest
